@@ -177,7 +177,10 @@ class C05(Prop):
             if k % 10 == 3:
                 # what else is on the wire: an undecodable frame of the same device, foreign bytes, an unknown model
                 bad = bytearray(data)
-                bad[42] = 0xFF
+                if k % 20 == 3:
+                    bad[42:74] = b"n" * 31 + bytes([r.choice([0xD7, 0xC3, 0xE2, 0xF0])])      # a full name field cut in the middle of a character
+                else:
+                    bad[42] = 0xFF
                 self.rig.send(port, bytes(bad))
                 self.rig.send(port, r.randbytes(r.randrange(0, 120)))
                 unk = bytearray(data)
